@@ -206,7 +206,9 @@ pub fn gen_env_line(r: &mut Rng, len: usize, wide: bool) -> String {
         // special casing: titlecase digraphs, sharp s, dotted capital I, final sigma, ligature
         "ǅungla", "ǆungla", "ǄUNGLA", "straße", "STRASSE", "İx", "i\u{307}x", "ΟΔΟΣ", "οδος", "οδοσ", "ﬁn", "FIN", "Ⅷ", "ⅷ",
         // names of standard-library functions in several spellings: host functions registered before / after extend_environment
-        "max", "MAX", "Length", "length", "abs", "Abs", "bool", "IF_THEN"] } else { &["a", "A", "b", "B"] };
+        "max", "MAX", "Length", "length", "abs", "Abs", "bool", "IF_THEN",
+        // names with surrounding / inner white space and other characters a "normalising" key function might strip: distinct keys, all of them
+        " a", "a ", "\ta", "A\n", " long", "long ", "x _1", "max ", " MAX", "a\u{a0}", "\u{feff}a", "a.", "a-b", "a_b"] } else { &["a", "A", "b", "B"] };
     let behs = ["first", "cnt", "fail", "arr", "k0", "k1", "k2", "k3", "last"];
     let mut p = vec!["env".to_string()];
     let ext_at = if wide && r.chance(1, 3) { Some(r.usize(len)) } else { None };
